@@ -14,6 +14,7 @@ ASSUMPTIONS = [
     'R-valence table (mc/gen/molecules.py:VAL); aromatic bonds count 1.5',
     'atoms whose bonds to non-hydrogen atoms already exceed the largest usual valence are outside the clause',
     'elements outside the table (Na, ...) are not judged',
+    'a single-hydrogen fragment whose descriptor found no partner stays an isolated atom and is not judged',
 ]
 EXPLANATION = 'valence invariant evaluated on every result of three exhaustive explorations'
 
